@@ -159,8 +159,11 @@ def rule_R3(P, rep, active_wait=False):
                 if has_if(toks, "p_next", False):
                     if len(tails) != 1 or tails[0][3] != 0:
                         why.append("list emptied but tail not reset")
-                elif tails:
-                    why.append("tail written although the list is not empty")
+                elif has_if(toks, "p_next", True):
+                    if tails:
+                        why.append("tail written although the list is not empty")
+                else:
+                    why.append("does not test whether the removed waiter was the last one (tail would dangle)")
         rep.ob("R3", "ABTI_waitlist_signal path [%s]" % show(toks), not why, "; ".join(why),
                loc="%s:%d" % (F.file, F.line), site="signal/%s" % show(toks))
     rep.min_instances("R3", 3)
@@ -254,7 +257,8 @@ def rule_R5(P, rep):
 
 def rule_R6(P, rep):
     F = P.fn("ABT_cond_timedwait")
-    T = P.enum_consts.get("ABT_ERR_COND_TIMEDOUT", 42)
+    T = P.macro_int("ABT_ERR_COND_TIMEDOUT")
+    rep.need(T, "ABT_ERR_COND_TIMEDOUT not found in abt.h")
     sel = seq.Sel(calls={"ABTI_mutex_lock"}, conds=lambda t: t == "is_timedout")
     n = 0
     for toks, kind, rv, rtxt in seq.sequences(F, sel):
